@@ -61,6 +61,27 @@ PROG = "app"
 # In the "-off" modes the variables are present but must be ignored at every level (model: no environment).
 ENV_MODES = ("prop", "call", "osvar", "prop-off", "call-off", "osvar-off")
 OSVAR = "JSONARGPARSE_DEFAULT_ENV"
+# Operation histories: what happened on the parsers (same thread / context) BEFORE the judged parse.  The judged parse
+# must give exactly the model's result whatever came before; the earlier call's error is handled by the caller.
+#   cfg-missing        root.parse_args(["--config", <file that does not exist>])          -> fails while loading
+#   sub-cfg-invalid    root.parse_args([first child, "--config", '{"nokey": ...}'])       -> fails inside a sub-parser
+#   fresh-cfg-missing  cfg-missing on a SECOND, separately built tree of the same spec (another parser failed)
+#   ok-last            a successful parse_object that names the last child at every level and gives it a value
+#   same               the judged call itself, executed once before (the parsers are used, not fresh)
+PRELUDES = ("cfg-missing", "sub-cfg-invalid", "fresh-cfg-missing", "ok-last", "same")
+PRELUDE_FAILS = ("cfg-missing", "sub-cfg-invalid", "fresh-cfg-missing")
+
+
+def alias_of(name):
+    """Every subcommand of a tree with spec["alias"] is declared with this one alias."""
+    return name + "1"
+
+
+def shown(i, parts):
+    """The name by which input i refers to the subcommand parser with canonical path `parts`: its alias when the
+    path is listed in i["al"], else its declared name.  (Environment variable NAMES always use the declared names:
+    the prefix belongs to the parser.)"""
+    return alias_of(parts[-1]) if ".".join(parts) in i.get("al", ()) else parts[-1]
 
 
 def env_mode(spec):
@@ -79,9 +100,10 @@ def env_enabled(spec):
 # spec = {"shape": nested list ([] = leaf), "req": [required flag of the subcommand level at depth 0, 1, 2],
 #         "cfgopt": "all" | "root" | "none"   (which parsers have a --config option),
 #         "glob": bool                         (parsers that have subcommands also have own options x, y, z),
-#         "dcf": None | {"at": "root" | "subs" | "all", "kind": "own" | "first" | "last" | "name_last"},
+#         "dcf": None | {"at": "root" | "subs" | "all", "kind": "own" | "first" | "last" | "name_last" | "every"},
 #         "denv": bool                         (environment variables are present in os.environ for a channel other
 #                                               than parse_env; without "envmode": default_env=True at the root),
+#         "alias": absent | True               (every subcommand at every level is declared with one alias, name + "1"),
 #         "envmode": absent | one of ENV_MODES (HOW environment parsing is switched on - or off again - for the
 #                                               whole tree, see ENV_MODES; only together with "denv")}
 #
@@ -90,7 +112,8 @@ def env_enabled(spec):
 # depth (p q r s, then u v w t).  Code that addresses the wrong level is thereby observable in both ways.
 #
 # Default config files: "own" = the parser's own options; "first"/"last" = additionally a section with the options
-# of its first / last subcommand; "name_last" = additionally the subcommand key naming the last subcommand.
+# of its first / last subcommand; "name_last" = additionally the subcommand key naming the last subcommand;
+# "every" = a section for EVERY subcommand (no name).
 
 
 def child_name(ip, i):
@@ -143,16 +166,24 @@ class Tree:
             return False
         return d["at"] == "all" or (d["at"] == "root" and n.depth == 0) or (d["at"] == "subs" and n.depth > 0)
 
-    def dcf_target(self, n):
-        """Child of n for which n's default config file carries a section (None if it carries none)."""
+    def dcf_targets(self, n):
+        """Children of n for which n's default config file carries a section, in declaration order."""
         d = self.spec.get("dcf")
         if not d or not self.dcf_applies(n) or not n.children:
-            return None
+            return []
         if d["kind"] == "first":
-            return n.children[0]
+            return n.children[:1]
         if d["kind"] in ("last", "name_last"):
-            return n.children[-1]
-        return None
+            return n.children[-1:]
+        if d["kind"] == "every":
+            return list(n.children)
+        return []
+
+    def dcf_target(self, n):
+        """The child of n that n's default config file selects when nothing else does: the one it names, else the
+        first one it has a section for (None if it carries no section)."""
+        t = self.dcf_targets(n)
+        return t[0] if t else None
 
     def dcf_names(self, n):
         d = self.spec.get("dcf")
@@ -166,8 +197,7 @@ class Tree:
         if n.has_opts:
             for o in OPTS:
                 doc[o] = tok("F", n.key, o)
-        t = self.dcf_target(n)
-        if t is not None:
+        for t in self.dcf_targets(n):
             c = self.child(n, t)
             assert c.has_opts, "default config sections are only generated for subcommands with own options"
             if self.dcf_names(n):
@@ -202,17 +232,21 @@ def split(p):
 #      "cs":   [dotted paths of parsers whose option x is given in the config document],
 #      "cl":   k  - the config document is given to the --config option of the parser reached after k argv names,
 #      "en":   {dotted path: name}   *_SUBCOMMAND environment variables,
-#      "es":   [dotted paths of parsers whose options x and y are given as environment variables]}
+#      "es":   [dotted paths of parsers whose options x and y are given as environment variables],
+#      "al":   [dotted (declared-name) paths of subcommand parsers that this input refers to BY ALIAS wherever it
+#               names them: on argv, as value of a subcommand key / *_SUBCOMMAND variable, as key of their section
+#               in the document; everything else in the abstract input stays in declared names],
+#      "pre":  one of PRELUDES - what is done on the parsers before the judged parse (absent: nothing)}
 # With ch in ("en", "ed") the config document travels in APP_CONFIG.  Environment variables of the other channels
 # are put into os.environ (the tree then has default_env=True).
 
 
 def norm_input(i):
     out = {"ch": i["ch"]}
-    for k, empty in (("argv", []), ("ax", []), ("cn", {}), ("cs", []), ("cl", 0), ("en", {}), ("es", [])):
+    for k, empty in (("argv", []), ("ax", []), ("cn", {}), ("cs", []), ("cl", 0), ("en", {}), ("es", []), ("al", []), ("pre", None)):
         v = i.get(k, empty)
         if v != empty:
-            out[k] = sorted(set(v)) if k in ("ax", "cs", "es") else v
+            out[k] = sorted(set(v)) if k in ("ax", "cs", "es", "al") else v
     return out
 
 
@@ -234,16 +268,31 @@ def config_doc(T, i):
     for p in cs:
         at(split(p))["x"] = tok("C", p, "x")
     d = root
-    for s in i.get("argv", [])[: i.get("cl", 0)]:
+    base = list(i.get("argv", [])[: i.get("cl", 0)])
+    for s in base:
         assert set(d) <= {s}, "config document content outside the parser it is given to"
         d = d.get(s, {})
-    return d
+    return render_doc(T, i, d, base) if i.get("al") else d
+
+
+def render_doc(T, i, doc, parts):
+    """The document with every subcommand referred to as input i does (alias or declared name)."""
+    n = T.node(parts)
+    out = {}
+    for k, v in doc.items():
+        if k == DEST:
+            out[k] = shown(i, parts + [v])
+        elif k in n.children:
+            out[shown(i, parts + [k])] = render_doc(T, i, v, parts + [k])
+        else:
+            out[k] = v
+    return out
 
 
 def environment(T, i):
     env = {}
     for p, name in i.get("en", {}).items():
-        env[env_name(split(p), DEST)] = name
+        env[env_name(split(p), DEST)] = shown(i, split(p) + [name])
     for p in i.get("es", []):
         for o in ("x", "y"):
             env[env_name(split(p), o)] = tok("E", p, o)
@@ -285,7 +334,7 @@ def model(T, i):
     def options(n, out):
         for o in OPTS if n.has_opts else ():
             v = tok("D", n.key, o)
-            if n.parent is not None and T.dcf_target(n.parent) == n.np[-1]:
+            if n.parent is not None and n.np[-1] in T.dcf_targets(n.parent):
                 v = tok("P", n.key, o)
             if T.dcf_applies(n):
                 # the order between a parent's default config section and the sub-parser's own default config file
@@ -311,6 +360,7 @@ def model(T, i):
         ckey = lambda c: n.key + "." + c if n.key else c  # noqa: E731
         with_settings = [c for c in n.children if ckey(c) in touched]
         dcf_t = T.dcf_target(n)
+        dcf_ts = T.dcf_targets(n)
         named = []  # in order of priority
         if n.depth < len(argv):
             named.append(("argv", argv[n.depth]))
@@ -325,7 +375,7 @@ def model(T, i):
         if named:
             how, choice = named[0]
         else:
-            cands = [c for c in n.children if c in with_settings or c == dcf_t]
+            cands = [c for c in n.children if c in with_settings or c in dcf_ts]
             if cands:
                 choice = cands[0]
                 how = "settings" if choice in with_settings else "dcf-settings"
@@ -333,7 +383,7 @@ def model(T, i):
                 how += "-nonfirst" if n.children.index(choice) > 0 else ""
             else:
                 how, choice = "none", None
-        if any(c != choice for _, c in named) or any(c != choice for c in with_settings) or dcf_t not in (None, choice):
+        if any(c != choice for _, c in named) or any(c != choice for c in with_settings) or any(c != choice for c in dcf_ts):
             info["competing"] = True
         info["hows"].append(how)
         out[DEST] = choice
@@ -346,8 +396,11 @@ def model(T, i):
             info["tags"].add("env-named-subcommand-with-section-in-APP_CONFIG")
         if not named and dcf_t is not None and choice != dcf_t:
             info["tags"].add("given-settings-against-default-config-settings")
+        if len(dcf_ts) > 1 and choice is not None and choice in dcf_ts and choice != dcf_t:
+            info["tags"].add("default-config-sections-for-several-subcommands")
+            info["scopes"].setdefault("default-config-sections-for-several-subcommands", []).append(ckey(choice))
         if choice is not None and how != "env-name" and ckey(choice) in es:
-            if (doc_in_env and ckey(choice) in cs) or dcf_t == choice:
+            if (doc_in_env and ckey(choice) in cs) or choice in dcf_ts:
                 info["tags"].add("subcommand-section-from-source-below-environment")
         if i["ch"] == "ed" and choice is not None:
             below = ckey(choice)
@@ -434,7 +487,10 @@ def build(T, J, scratch):
         if n.children:
             sc = parsers[n.key].add_subcommands(required=n.required, dest=DEST)
             for c in n.child_nodes:
-                sc.add_subcommand(c.np[-1], make(c))
+                if T.spec.get("alias"):
+                    sc.add_subcommand(c.np[-1], make(c), aliases=(alias_of(c.np[-1]),))
+                else:
+                    sc.add_subcommand(c.np[-1], make(c))
     if env_mode(T.spec) in ("prop", "prop-off"):  # the finished tree is told through the root's property
         parsers[""].default_env = env_mode(T.spec) == "prop"
     return parsers
@@ -479,15 +535,6 @@ def execute(T, i, J, scratch):
         root = parsers[""]
         env = environment(T, i)
         doc = config_doc(T, i)
-        if ch == "ed":  # the environment as an explicit mapping; os.environ stays clean
-            return outcome(root.parse_env, dict(env))
-        os.environ.update(env)
-        if ch == "en":
-            return outcome(root.parse_env)
-        if ch == "ob":
-            return outcome(root.parse_object, copy.deepcopy(doc if doc is not None else {}), **kw)
-        if ch == "st":
-            return outcome(root.parse_string, json.dumps(doc if doc is not None else {}), **kw)
         argv = i.get("argv", [])
         ax = set(i.get("ax", []))
         toks = []
@@ -500,12 +547,59 @@ def execute(T, i, J, scratch):
             if k in ax:
                 toks.append("--x=" + tok("A", ".".join(argv[:k]), "x"))
             if k < len(argv):
-                toks.append(argv[k])
-        return outcome(root.parse_args, toks, **kw)
+                toks.append(shown(i, argv[: k + 1]))
+
+        def op():  # the judged call; every invocation gets fresh copies of its arguments
+            if ch == "ed":  # the environment as an explicit mapping; os.environ stays clean
+                return outcome(root.parse_env, dict(env))
+            if ch == "en":
+                return outcome(root.parse_env)
+            if ch == "ob":
+                return outcome(root.parse_object, copy.deepcopy(doc if doc is not None else {}), **kw)
+            if ch == "st":
+                return outcome(root.parse_string, json.dumps(doc if doc is not None else {}), **kw)
+            return outcome(root.parse_args, list(toks), **kw)
+
+        if ch != "ed":
+            os.environ.update(env)
+        pre = i.get("pre")
+        if pre:
+            o = prelude(T, J, scratch, parsers, pre, op)
+            _last_prelude[:] = [pre, o["kind"]]
+        return op()
     finally:
         if dict(os.environ) != saved:
             os.environ.clear()
             os.environ.update(saved)
+
+
+_last_prelude = [None, None]  # (kind of prelude, kind of its outcome) of the case executed last, for the vacuity guards
+
+
+def prelude(T, J, scratch, parsers, pre, op):
+    """The earlier call of an operation history (see PRELUDES).  Its outcome is handled (never judged)."""
+    from mc.util import outcome
+
+    assert pre in PRELUDES, pre
+    root = parsers[""]
+    missing = os.path.join(scratch, "no_such_config_file.json")
+    if pre == "cfg-missing":
+        return outcome(root.parse_args, ["--config", missing])
+    if pre == "fresh-cfg-missing":
+        return outcome(build(T, J, scratch)[""].parse_args, ["--config", missing])
+    if pre == "sub-cfg-invalid":
+        return outcome(root.parse_args, [T.root.children[0], "--config", json.dumps({"nokey": "v"})])
+    if pre == "ok-last":
+        obj = d = {}
+        n = T.root
+        while n.children:
+            last = n.child_nodes[-1]
+            d[DEST] = last.np[-1]
+            d[last.np[-1]] = d = {}
+            n = last
+        d["x"] = "PRE_x"
+        return outcome(root.parse_object, obj, env=False)
+    return op()  # "same"
 
 
 _MISSING = object()
@@ -522,9 +616,12 @@ def token_class(v):
     return "other"
 
 
-def compare(T, n, exp, obs, hows, devs):
+def compare(T, n, exp, obs, hows, devs, i=None):
     """Key-by-key comparison of the model's section with the implementation's for parser n (recursive).
-    Appends (signature, detail, dotted path of the parser whose section deviates)."""
+    Appends (signature, detail, dotted path of the parser whose section deviates).  On a tree with aliases the
+    chosen subcommand's name (value of the subcommand key and key of its section) is the one the input used
+    (`shown`); every other declared name or alias at the level is the key of "another" section."""
+    i = i or {}
     lvl = "root" if n.depth == 0 else "nested"
     if not isinstance(obs, dict):
         devs.append((f"section-not-a-mapping:{lvl}", f"{n.key!r}: {obs!r}", n.key))
@@ -540,14 +637,16 @@ def compare(T, n, exp, obs, hows, devs):
                     n.key,
                 )
             )
-    known = set(OPTS if n.has_opts else ()) | (({DEST} | set(n.children)) if n.children else set())
+    names = list(n.children) + ([alias_of(c) for c in n.children] if T.spec.get("alias") else [])
+    known = set(OPTS if n.has_opts else ()) | (({DEST} | set(names)) if n.children else set())
     for k in obs:
         if k not in known:
             devs.append((f"unexpected-key:{lvl}", f"{n.key!r} has key {k!r}", n.key))
     if not n.children:
         return
     how = hows[n.depth] if n.depth < len(hows) else "?"
-    want = exp[DEST]
+    chosen = exp[DEST]
+    want = shown(i, n.np + [chosen]) if chosen is not None else None
     got = obs.get(DEST, _MISSING)
     if got != want:
         devs.append(
@@ -559,7 +658,7 @@ def compare(T, n, exp, obs, hows, devs):
             )
         )
         return
-    for c in n.children:
+    for c in names:
         if c != want and c in obs:
             devs.append(
                 (f"extra-section:{how}:{lvl}", f"{n.key!r}: chosen {want!r} but section {c!r} = {obs[c]!r} survives", n.key)
@@ -568,7 +667,7 @@ def compare(T, n, exp, obs, hows, devs):
         if want not in obs:
             devs.append((f"missing-section:{how}:{lvl}", f"{n.key!r}: chosen {want!r} has no section", n.key))
         else:
-            compare(T, T.child(n, want), exp[want], obs[want], hows, devs)
+            compare(T, T.child(n, chosen), exp[chosen], obs[want], hows, devs, i)
 
 
 def help_names(T, J, scratch):
@@ -626,6 +725,9 @@ EXPLAINS = {
         "succeeds-without-determinable-subcommand",
         "settings:expected-env-got-default",
     },
+    "default-config-sections-for-several-subcommands": {
+        "settings:expected-parent-dcf-got-default",
+    },
     "subcommand-section-from-source-below-environment": {
         "settings:expected-env-got-config",
         "settings:expected-env-got-parent-dcf",
@@ -674,7 +776,7 @@ def judge(case):
                 (f"succeeds-without-determinable-subcommand:{how}", f"model: {m['value']}; implementation: {json.dumps(obs)[:300]}")
             )
         else:
-            compare(T, T.root, m["value"], obs, m["hows"], devs)
+            compare(T, T.root, m["value"], obs, m["hows"], devs, i)
     if devs and m["tags"]:
         # the case belongs to the input class of a documented open finding: name the class (only where the class can
         # explain the symptom - and, for a class with a scope, only for symptoms located at or below the parsers the
@@ -704,18 +806,39 @@ def judge(case):
         "envmode": env_mode(T.spec),
         "envdepth": m["envdepth"],
     }
+    if i.get("pre"):
+        summary["pre"] = list(_last_prelude)
+    if T.spec.get("alias"):
+        al = set(i.get("al", []))
+        on_path = {".".join(m["path"][: k + 1]) for k in range(len(m["path"]))}
+        mentioned = mentioned_children(T, i)
+        summary["alias"] = {
+            "chosen-by-alias": bool(al & on_path),
+            "other-under-alias": bool(al - on_path),
+            "chosen-by-alias-other-by-declared-name": bool(al & on_path) and bool(mentioned - on_path - al),
+            "chosen-by-declared-name-other-under-alias": bool(on_path - al) and bool(al - on_path),
+        }
     return devs, summary
 
 
+def isolated(case):
+    """judge(case) in a contextvars Context of its own: whatever a case leaves behind in a context variable of the
+    library cannot reach the next case of the same worker process (a witness must reproduce in a fresh process);
+    what an earlier call leaves behind is judged explicitly by the operation histories (PRELUDES), inside one case."""
+    import contextvars
+
+    return contextvars.copy_context().run(judge, case)
+
+
 def run_case(case):
-    devs, _ = judge(case)
+    devs, _ = isolated(case)
     return [{"signature": s, "detail": d} for s, d in devs]
 
 
 def work(case):
     """Worker: one case.  Returns (case or None, devs, summary)."""
     try:
-        devs, summary = judge(case)
+        devs, summary = isolated(case)
     except Exception as ex:  # a crash of the harness itself must be loud
         import traceback
 
@@ -1022,22 +1145,51 @@ def channels_for(T, i, family, tier):
     return out
 
 
-def inputs_for_shape(shape, variant, families, tier):
-    """All (family, abstract input with channel) of one shape, deduplicated; independent of the required flags."""
+def mentioned_children(T, i):
+    """Declared-name paths of the subcommand parsers that input i refers to: named on argv, by a subcommand key of
+    the document or a *_SUBCOMMAND variable, or owner / ancestor of a section of the document."""
+    out = set()
+    argv = i.get("argv", [])
+    for k in range(len(argv)):
+        out.add(".".join(argv[: k + 1]))
+    for src in ("cn", "en"):
+        for p, name in i.get(src, {}).items():
+            out.add(".".join(split(p) + [name]))
+            out |= {".".join(split(p)[: k + 1]) for k in range(len(split(p)))}
+    for p in i.get("cs", []):
+        out |= {".".join(split(p)[: k + 1]) for k in range(len(split(p)))}
+    return out
+
+
+def inputs_for_shape(shape, variant, families, tier, axis=None):
+    """All (family, abstract input with channel) of one shape, deduplicated; independent of the required flags.
+    axis "alias": every input once for EVERY subset of the subcommands it mentions referred to by alias (the empty
+    subset = aliases declared but not used); axis "history": every input after every prelude of PRELUDES.  Under an
+    axis the channels that only differ in how the text reaches the loader (as, st, ed) are not repeated."""
     T = Tree(dict(variant, shape=shape, req=[True, True, True]))
     seen, out = set(), []
     for fam in families:
         for raw in FAMILIES[fam](T, tier):
             for ch in channels_for(T, raw, fam, tier):
-                i = norm_input(dict(raw, ch=ch))
-                key = json.dumps(i, sort_keys=True)
-                if key not in seen:
-                    seen.add(key)
-                    out.append((fam, i))
+                if axis and ch in ("as", "st", "ed"):
+                    continue
+                base = dict(raw, ch=ch)
+                if axis == "alias":
+                    expanded = [dict(base, al=S) for S in subsets(sorted(mentioned_children(T, base)))]
+                elif axis == "history":
+                    expanded = [dict(base, pre=h) for h in PRELUDES]
+                else:
+                    expanded = [base]
+                for e in expanded:
+                    i = norm_input(e)
+                    key = json.dumps(i, sort_keys=True)
+                    if key not in seen:
+                        seen.add(key)
+                        out.append((fam, i))
     return out
 
 
-def cases_for_shape(shape, variant, families, tier):
+def cases_for_shape(shape, variant, families, tier, axis=None):
     """Cases of one shape: every input under the required/optional vectors.  Quick tier (and the env family in both
     tiers): all vectors when the input leaves some level undetermined (there the flag decides the outcome), otherwise
     all-required and all-optional.  Thorough tier: all vectors."""
@@ -1045,9 +1197,9 @@ def cases_for_shape(shape, variant, families, tier):
     optional = [False, False, False]
     uniform = [v for v in vectors if len(set(v[: depth_of(shape)])) == 1]
     # environment variable names in the help do not depend on default config files or required flags
-    plain = not variant["dcf"] and not env_mode(variant)
+    plain = not variant["dcf"] and not env_mode(variant) and not axis
     out = [("help", {"t": dict(variant, shape=shape, req=v), "i": {"ch": "help"}}) for v in vectors[:1] if plain]
-    for fam, i in inputs_for_shape(shape, variant, families, tier):
+    for fam, i in inputs_for_shape(shape, variant, families, tier, axis):
         denv = bool(i.get("en") or i.get("es")) and i["ch"] not in ENV_CH
         if env_mode(variant) and not denv:
             continue  # the mode only matters where variables meet parse_args / parse_object
@@ -1069,15 +1221,17 @@ def dcf_variants(shape):
     T = Tree(dict(BASE, shape=shape, req=[True, True, True]))
     out = []
     for at in ("root", "subs", "all"):
-        for kind in ("own", "first", "last", "name_last"):
+        for kind in ("own", "first", "last", "name_last", "every"):
             spec = dict(BASE, dcf={"at": at, "kind": kind})
             Tv = Tree(dict(spec, shape=shape, req=[True, True, True]))
             if not any(Tv.dcf_applies(n) for n in Tv.order):
                 continue
             if kind != "own" and not any(Tv.dcf_target(n) for n in Tv.order):
                 continue  # degenerates to "own"
-            if kind == "last" and all(len(n.children) == 1 for n in Tv.order if Tv.dcf_target(n)):
+            if kind in ("last", "every") and all(len(n.children) == 1 for n in Tv.order if Tv.dcf_target(n)):
                 continue  # same as "first"
+            if kind == "every" and at == "subs":
+                continue  # cost: sections for every subcommand are explored with the file at the root / everywhere
             out.append(spec)
     return out
 
@@ -1097,6 +1251,11 @@ def case_groups(tier):
     for shape in SMALL if tier == "quick" else small:  # the env family once more under every other way of
         for mode in ENV_MODES:  # switching environment parsing on / off for the tree
             yield cases_for_shape(shape, dict(BASE, envmode=mode), ["env"], tier)
+    axes_shapes = SMALL if tier == "quick" else SMALL + [leaves(3)]  # thorough: one notch wider (cost)
+    for shape in axes_shapes:  # subcommands declared with aliases, referred to by alias
+        yield cases_for_shape(shape, dict(BASE, alias=True), ["local"] if depth_of(shape) > 1 else ["local", "env"], tier, "alias")
+    for shape in axes_shapes:  # operation histories: an earlier call on the same parsers
+        yield cases_for_shape(shape, BASE, ["local"] if depth_of(shape) > 1 else ["local", "env"], tier, "history")
 
 
 def enumerate_cases(tier):
@@ -1134,6 +1293,14 @@ def explore(ctx):
                         ctx.count("envmode-decides-nested-settings:" + s["envmode"])
                         if s["hows"][:2] == ["argv", "argv"]:
                             ctx.count("envmode-decides-nested-settings:" + s["envmode"] + ":both-levels-on-argv")
+                if s.get("pre"):
+                    ctx.count("history:" + s["pre"][0])
+                    ctx.count("history:" + s["pre"][0] + ":earlier-call-" + ("ok" if s["pre"][1] == "ok" else "fails"))
+                    if "cfg-name" in s["hows"] and s["competing"] and s["kind"] == "ok":
+                        ctx.count("history:" + s["pre"][0] + ":then-name-in-document-with-settings-for-another")
+                for k, v in (s.get("alias") or {}).items():
+                    if v and s["kind"] == "ok":
+                        ctx.count("alias:" + k)
             for sig, detail in devs:
                 ctx.deviation(sig, case, detail)
 
@@ -1175,6 +1342,10 @@ def explore(ctx):
         trees=len(trees),
         bounds={
             "tier": ctx.tier,
+            "aliases": "every subcommand declared with one alias, every subset of the mentioned subcommands referred to by "
+            "alias; small shapes, local family (+ env family on the flat shape), channels af ob en",
+            "histories": ", ".join(PRELUDES) + " before the judged parse; small shapes, local family (+ env family on the "
+            "flat shape), channels af ob en",
             "env_modes": "default_env=True at the root on every shape; " + ", ".join(ENV_MODES) + " on the small shapes",
             "shapes": len(shapes(ctx.tier)),
             "max_depth": 2 if ctx.quick else 3,
@@ -1207,6 +1378,19 @@ def explore(ctx):
     ctx.require(c.get("depth:2", 0) > 100, "nested selections reached")
     ctx.require(c.get("competing-information-present", 0) > 100, "inputs with information for a non-chosen subcommand occur")
     ctx.require(c.get("outcome:help", 0) > 10, "environment variable names cross-checked against help output")
+    for pre in PRELUDES:
+        n = c.get("history:" + pre, 0)
+        ctx.require(n > 100, f"operation history {pre!r} exercised")
+        if pre in PRELUDE_FAILS:
+            ctx.require(c.get(f"history:{pre}:earlier-call-fails", 0) == n, f"history {pre!r}: the earlier call fails in every case")
+        elif pre == "ok-last":
+            ctx.require(c.get(f"history:{pre}:earlier-call-ok", 0) == n, f"history {pre!r}: the earlier call succeeds in every case")
+        ctx.require(
+            c.get(f"history:{pre}:then-name-in-document-with-settings-for-another", 0) > 10,
+            f"history {pre!r}: followed by successful parses that name one subcommand and carry settings of another",
+        )
+    for k in ("chosen-by-alias", "other-under-alias", "chosen-by-alias-other-by-declared-name", "chosen-by-declared-name-other-under-alias"):
+        ctx.require(c.get("alias:" + k, 0) > 10, f"aliases: successful parses of the class {k!r} occur")
     for mode in ENV_MODES:
         ctx.require(c.get("envmode:" + mode, 0) > 100, f"environment switched by mode {mode!r} exercised")
         ctx.require(
